@@ -26,6 +26,11 @@ func Attribute(m Mismatch, running string) string {
 	switch m.Kind {
 	case "panic":
 		return "C10"
+	case "input-modified":
+		if running == "C06" {
+			return "C06" // the block that is reverted and re-applied is no longer the block that was validated
+		}
+		return "C09"
 	case "control-rejected":
 		return "harness"
 	case "post":
